@@ -1,8 +1,8 @@
 //! C17 — abs_diff_eq / relative_eq are number-by-number conjunctions for every type.
 
-use crate::flat::*;
-use crate::gen::*;
-use crate::mon::*;
+use ppv::flat::*;
+use ppv::gen::*;
+use ppv::mon::*;
 use approx::{AbsDiffEq, RelativeEq};
 use piecewise_polynomial::*;
 use serde_json::json;
@@ -210,7 +210,7 @@ pub fn run(a: &Args, m: &mut Mon) {
                 family::<IntOfLog<$t>>(m, &mut r);
             };
         }
-        crate::for_polys!(fam);
+        ppv::for_polys!(fam);
         family::<IntOfLogPoly4>(m, &mut r);
         polyn(m, &mut r);
     }
